@@ -2091,6 +2091,14 @@ fn alloc_bound(only: &str) -> String {
         while v.len() < 512 { v.extend_from_slice(&cnt.to_le_bytes()); v.extend_from_slice(&0x40u32.to_le_bytes()); }
         cases.push(("m2", format!("M2 version {}: 512-byte header whose array fields all declare {:#x} elements at offset 0x40", ver, cnt), v));
     }}
+    // chunked M2 (MD21 container): an empty MD21 chunk followed by one chunk header with a hostile size
+    for m in [b"SFID", b"AFID", b"TXID", b"BFID", b"LDV1", b"EXPT", b"EXP2", b"PABC", b"PADC", b"PSBC", b"PEDC", b"TXAC", b"PGD1", b"DBOC", b"AFRA", b"DPIV", b"WFV1", b"WFV2", b"WFV3", b"EDGF", b"NERF", b"DETL", b"RPID", b"GPID", b"PCOL", b"PFID", b"SKID", b"ZZZZ"] {
+        for size in [0xFFFF_FF00u32, 0x4000_0000] {
+            let mut f = chunk(b"MD21", 0, &[]);
+            f.extend(chunk(m, size, &[1, 2, 3, 4, 5, 6, 7, 8]));
+            cases.push(("m2c", format!("chunked M2: empty MD21 + chunk {:?} declaring {:#x} bytes, 8 payload bytes", String::from_utf8_lossy(&m[..]), size), f));
+        }
+    }
     // ADT / WMO: MVER + one chunk header with a hostile size
     for m in [b"XETM", b"XDMM", b"DIMM", b"OMWM", b"DIWM", b"FDDM", b"FDOM", b"NICM", b"KNCM", b"O2HM", b"RDHM", b"OBFM", b"FXTM"] {
         for size in [0xFFFF_FF00u32, 0x7FFF_FFC0, 0x1000_0000] {
@@ -2117,7 +2125,7 @@ fn alloc_bound(only: &str) -> String {
                 "wdt" => { let _ = wow_wdt::WdtReader::new(std::io::Cursor::new(b2), wow_wdt::version::WowVersion::WotLK).read().is_ok(); }
                 "wdl" => { let _ = wow_wdl::parser::WdlParser::new().parse(&mut std::io::Cursor::new(b2)).is_ok(); }
                 "blp" => { let _ = wow_blp::parser::parse_blp(&b2).is_ok(); }
-                "m2" => { let _ = wow_m2::parse_m2(&mut std::io::Cursor::new(b2)).is_ok(); }
+                "m2" | "m2c" => { let _ = wow_m2::parse_m2(&mut std::io::Cursor::new(b2)).is_ok(); }
                 "adt" => { let _ = wow_adt::parse_adt(&mut std::io::Cursor::new(b2)).is_ok(); }
                 "wmo" => { let _ = wow_wmo::parse_wmo(&mut std::io::Cursor::new(b2.clone())).is_ok(); let _ = wow_wmo::WmoParser::new().parse_root(&mut std::io::Cursor::new(b2)).is_ok(); }
                 "dbc" => {
